@@ -5,7 +5,7 @@
     [canonical_split cap total buffer fee single] is the specification's split (Spec.v). *)
 From V.Lib Require Import Base MachInt.
 From V.Gen Require Import C16Consts.
-From V.C16 Require Import Model Spec Corr Wf ProofsSeries ProofsSplit ProofsPlan Proofs Bridge.
+From V.C16 Require Import Model Spec Corr Wf ProofsSeries ProofsL125 ProofsSplit ProofsPlan Proofs Bridge.
 Local Open Scope Z_scope.
 
 (** ** The denomination set *)
@@ -17,6 +17,12 @@ Theorem C16_largest_125_spec : forall hi floor, 0 < floor -> floor <= hi -> hi <
   /\ largest_one_two_five hi floor <= hi
   /\ (forall s, Series125 floor s -> s <= hi -> s <= largest_one_two_five hi floor).
 Proof. exact l125_max. Qed.
+
+(** For the documented floors (powers of ten) and any [u64] bound: the closed form "first member
+    of the descending 1-2-5 list lying in [floor, hi]", 0 if none. *)
+Theorem C16_largest_125_closed_form : forall hi floor, is_pow10 floor = true -> 0 <= hi <= u64_max ->
+  largest_one_two_five hi floor = spec_l125 hi floor.
+Proof. exact l125_closed_form. Qed.
 
 Theorem C16_largest_125_below : forall hi floor, hi < floor -> largest_one_two_five hi floor = 0.
 Proof. exact l125_below. Qed.
@@ -133,9 +139,11 @@ Theorem C16_legacy_fit_refuted :
 Proof. exact legacy_fit_refuted. Qed.
 
 (** Bridge: where the implementation agrees with the model, its outcome satisfies the property
-    checker (all clauses of [plan_ok]), for every oracle of the family. *)
+    checker (all clauses of [plan_ok], the closed forms of the two zip318 functions, the stored-
+    parts validation), for every oracle of the family.  [rng_flag]: the harness saw the same plan
+    under a second RNG seed (the model has no RNG to quantify over). *)
 Theorem C16_agree_implies_property : forall c,
-  wf_case c = true -> bridged c = true -> rng_flag c = true -> run_case c = true -> prop_case c = true.
+  wf_case c = true -> rng_flag c = true -> run_case c = true -> prop_case c = true.
 Proof. exact agree_implies_property. Qed.
 
 (** Non-vacuity: the ZIP's worked example 123.45 ZEC -> 100 + 20 + 2 + 1 + 0.2 + 0.2 + 0.05
